@@ -1,6 +1,803 @@
-//! C13 -- (stub; see DESIGN.md section 5)
-use crate::util::Args;
+//! C13 -- Liang hyphenation (crates/hyphenate).  Binding F.
+//!
+//! Every output line is one real `hyphenate::Hyphenator`: the exact API calls that configured it
+//! (text arguments as code points), the lower-case map that was handed to `calculate_indices`, and
+//! for each queried word the indices the iterator returned.  Nothing is interpreted here -- what the
+//! indices *should* be is decided by TLC (specs/Trace_Liang.tla evaluating specs/Liang.tla).
+use crate::util::{catch, quiet_panics, Args, Out, Rng};
+use hyphenate::{AsciiLowerCaser, Hyphenator, LowerCaser};
+use serde_json::{json, Value};
+use std::collections::{BTreeSet, HashMap, HashSet};
 
-pub fn dispatch(_cmd: &str, _args: &Args) -> Option<i32> {
-    None
+pub fn dispatch(cmd: &str, args: &Args) -> Option<i32> {
+    Some(match cmd {
+        "c13-gen" => match args.str("mode").unwrap_or("random") {
+            "random" => gen_random(args),
+            "long" => gen_long(args),
+            "small" => gen_small(args),
+            "plain" => gen_plain(args),
+            "replay" => replay(args),
+            m => {
+                eprintln!("unknown mode {m}");
+                2
+            }
+        },
+        _ => return None,
+    })
+}
+
+// ------------------------------------------------------------------------------------------
+// lower-case maps (the `LowerCaser` argument of calculate_indices)
+// ------------------------------------------------------------------------------------------
+
+enum Lc {
+    /// the crate's own AsciiLowerCaser
+    Ascii(AsciiLowerCaser),
+    /// an arbitrary table, like TeX's \lccode (absent = not a letter)
+    Table(HashMap<char, char>),
+}
+
+impl LowerCaser for Lc {
+    fn to_lower_case(&self, c: char) -> Option<char> {
+        match self {
+            Lc::Ascii(a) => a.to_lower_case(c),
+            Lc::Table(t) => t.get(&c).copied(),
+        }
+    }
+}
+
+/// An alphabet profile: the lower-case letters patterns are written in, and for each of them the
+/// characters a word may use for it (itself, upper-case forms, \lccode-style aliases).
+struct Profile {
+    name: &'static str,
+    lc: Lc,
+    lower: Vec<char>,
+    forms: Vec<Vec<char>>,
+    /// characters that are not letters under this map
+    nonletters: Vec<char>,
+}
+
+fn profile_ascii() -> Profile {
+    Profile {
+        name: "ascii",
+        lc: Lc::Ascii(AsciiLowerCaser::default()),
+        lower: vec!['a', 'b', 'c'],
+        forms: vec![vec!['a', 'A'], vec!['b', 'B'], vec!['c', 'C']],
+        nonletters: vec!['-', '1', ' ', '.', '\u{e9}'],
+    }
+}
+
+fn profile_table() -> Profile {
+    // 1-, 2-, 3- and 4-byte characters; 'x' is a lower-case looking alias of 'a' (\lccode`x=`a)
+    let pairs: Vec<(char, char)> = vec![
+        ('a', 'a'),
+        ('A', 'a'),
+        ('x', 'a'),
+        ('\u{ff21}', 'a'), // fullwidth A, 3 bytes
+        ('\u{e9}', '\u{e9}'),
+        ('\u{c9}', '\u{e9}'),
+        ('\u{1d404}', '\u{e9}'), // mathematical bold E, 4 bytes
+        ('\u{3c9}', '\u{3c9}'),
+        ('\u{3a9}', '\u{3c9}'),
+        ('\u{2126}', '\u{3c9}'), // ohm sign, 3 bytes
+    ];
+    Profile {
+        name: "table",
+        lc: Lc::Table(pairs.iter().copied().collect()),
+        lower: vec!['a', '\u{e9}', '\u{3c9}'],
+        forms: vec![
+            vec!['a', 'A', 'x', '\u{ff21}'],
+            vec!['\u{e9}', '\u{c9}', '\u{1d404}'],
+            vec!['\u{3c9}', '\u{3a9}', '\u{2126}'],
+        ],
+        nonletters: vec!['-', '1', ' ', 'b', 'Z'],
+    }
+}
+
+// ------------------------------------------------------------------------------------------
+// one Hyphenator = one event
+// ------------------------------------------------------------------------------------------
+
+#[derive(Clone, Debug)]
+struct Call {
+    k: &'static str, // "p" load_patterns, "e" insert_exception, "E" insert_exceptions
+    t: String,
+}
+
+fn cps(s: &str) -> Vec<u32> {
+    s.chars().map(|c| c as u32).collect()
+}
+
+fn build(calls: &[Call]) -> Hyphenator {
+    let mut h = Hyphenator::default();
+    for c in calls {
+        match c.k {
+            "p" => h.load_patterns(&c.t),
+            "e" => h.insert_exception(&c.t),
+            "E" => h.insert_exceptions(&c.t),
+            _ => unreachable!(),
+        }
+    }
+    h
+}
+
+fn query<L: LowerCaser>(h: &Hyphenator, lc: &L, w: &str) -> Value {
+    match catch(|| h.calculate_indices(lc, w).collect::<Vec<usize>>()) {
+        Ok(got) => json!({"w": cps(w), "got": got}),
+        Err((site, msg)) => json!({"w": cps(w), "panic": format!("{site}: {msg}")}),
+    }
+}
+
+fn lc_pairs<L: LowerCaser>(lc: &L, texts: &[&str]) -> Vec<(u32, u32)> {
+    let mut seen: BTreeSet<char> = BTreeSet::new();
+    for t in texts {
+        seen.extend(t.chars());
+    }
+    seen.into_iter()
+        .map(|c| (c as u32, lc.to_lower_case(c).map(|l| l as u32).unwrap_or(0)))
+        .collect()
+}
+
+fn event<L: LowerCaser>(calls: &[Call], lc: &L, words: &[String], profile: &str) -> Value {
+    let ops: Vec<Value> = calls.iter().map(|c| json!({"k": c.k, "t": cps(&c.t)})).collect();
+    let mut texts: Vec<&str> = calls.iter().map(|c| c.t.as_str()).collect();
+    texts.extend(words.iter().map(|w| w.as_str()));
+    let lcp = lc_pairs(lc, &texts);
+    match catch(|| build(calls)) {
+        Err((site, msg)) => {
+            json!({"ops": ops, "lc": lcp, "profile": profile, "words": [], "panic": format!("{site}: {msg}")})
+        }
+        Ok(h) => {
+            let ws: Vec<Value> = words.iter().map(|w| query(&h, lc, w)).collect();
+            json!({"ops": ops, "lc": lcp, "profile": profile, "words": ws})
+        }
+    }
+}
+
+// ------------------------------------------------------------------------------------------
+// random pattern sets / exception lists / words
+// ------------------------------------------------------------------------------------------
+
+#[derive(Clone)]
+struct Pat {
+    letters: Vec<char>,
+    digits: Vec<Option<u8>>, // one per gap 0..=n
+    at_start: bool,
+    at_end: bool,
+}
+
+impl Pat {
+    fn text(&self) -> String {
+        let mut s = String::new();
+        if self.at_start {
+            s.push('.');
+        }
+        for g in 0..=self.letters.len() {
+            if let Some(d) = self.digits[g] {
+                s.push((b'0' + d) as char);
+            }
+            if g < self.letters.len() {
+                s.push(self.letters[g]);
+            }
+        }
+        if self.at_end {
+            s.push('.');
+        }
+        s
+    }
+    fn key(&self) -> (bool, Vec<char>, bool) {
+        (self.at_start, self.letters.clone(), self.at_end)
+    }
+}
+
+fn rand_letters(r: &mut Rng, p: &Profile, n: usize) -> Vec<char> {
+    // runs of a repeated letter make overlapping self-matches likely
+    let mut v = vec![];
+    while v.len() < n {
+        let c = *r.pick(&p.lower);
+        let run = if r.chance(1, 4) { r.range(2, 4) as usize } else { 1 };
+        for _ in 0..run {
+            if v.len() < n {
+                v.push(c);
+            }
+        }
+    }
+    v
+}
+
+fn rand_len(r: &mut Rng) -> usize {
+    match r.below(100) {
+        0..=14 => 1,
+        15..=44 => 2,
+        45..=69 => 3,
+        70..=81 => 4,
+        82..=91 => r.range(5, 8) as usize,
+        92..=97 => r.range(15, 24) as usize,
+        _ => r.range(31, 38) as usize,
+    }
+}
+
+fn rand_digit(r: &mut Rng) -> u8 {
+    const W: [u8; 100] = {
+        let mut w = [0u8; 100];
+        let weights = [3, 14, 14, 12, 12, 10, 9, 9, 9, 8];
+        let mut i = 0;
+        let mut d = 0;
+        while d < 10 {
+            let mut k = 0;
+            while k < weights[d] {
+                w[i] = d as u8;
+                i += 1;
+                k += 1;
+            }
+            d += 1;
+        }
+        w
+    };
+    W[r.below(100) as usize]
+}
+
+fn rand_digits(r: &mut Rng, n: usize) -> Vec<Option<u8>> {
+    let (num, den) = if n <= 4 { (45, 100) } else if n <= 8 { (30, 100) } else { (12, 100) };
+    let mut d: Vec<Option<u8>> = (0..=n).map(|_| if r.chance(num, den) { Some(rand_digit(r)) } else { None }).collect();
+    if d.iter().all(|x| x.is_none()) && r.chance(9, 10) {
+        let g = r.below(n as u64 + 1) as usize;
+        d[g] = Some(rand_digit(r).max(1));
+    }
+    d
+}
+
+fn derive_letters(r: &mut Rng, p: &Profile, base: &[char]) -> Vec<char> {
+    let n = base.len();
+    match r.below(7) {
+        0 => base[..r.range(1, n as i64) as usize].to_vec(),
+        1 => base[n - r.range(1, n as i64) as usize..].to_vec(),
+        2 => {
+            let a = r.below(n as u64) as usize;
+            let b = r.range(a as i64 + 1, n as i64) as usize;
+            base[a..b].to_vec()
+        }
+        3 => {
+            let mut v = base.to_vec();
+            v.push(*r.pick(&p.lower));
+            v
+        }
+        4 => {
+            let mut v = vec![*r.pick(&p.lower)];
+            v.extend_from_slice(base);
+            v
+        }
+        _ => base.to_vec(),
+    }
+}
+
+fn mixed_case(r: &mut Rng, p: &Profile, lower: &[char], style: u64) -> String {
+    lower
+        .iter()
+        .enumerate()
+        .map(|(i, c)| {
+            let forms = match p.lower.iter().position(|l| l == c) {
+                Some(ix) => &p.forms[ix],
+                None => return *c,
+            };
+            match style {
+                0 => *c,
+                1 => {
+                    if i == 0 {
+                        forms[1]
+                    } else {
+                        *c
+                    }
+                }
+                2 => forms[1],
+                _ => *r.pick(forms),
+            }
+        })
+        .collect()
+}
+
+fn gen_set(r: &mut Rng, p: &Profile, nwords: usize) -> (Vec<Call>, Vec<String>) {
+    // ---- patterns
+    let npat = match r.below(100) {
+        0..=4 => 0,
+        5..=24 => 1,
+        25..=49 => 2,
+        50..=69 => 3,
+        70..=84 => 4,
+        _ => r.range(5, 7) as usize,
+    };
+    let mut pats: Vec<Pat> = vec![];
+    let mut keys: HashSet<(bool, Vec<char>, bool)> = HashSet::new();
+    let mut tries = 0;
+    while pats.len() < npat && tries < 50 {
+        tries += 1;
+        let letters = if !pats.is_empty() && r.chance(45, 100) {
+            let base = r.pick(&pats).letters.clone();
+            derive_letters(r, p, &base)
+        } else {
+            let n = rand_len(r);
+            rand_letters(r, p, n)
+        };
+        let pat = Pat {
+            digits: rand_digits(r, letters.len()),
+            letters,
+            at_start: r.chance(1, 4),
+            at_end: r.chance(1, 4),
+        };
+        if keys.insert(pat.key()) {
+            pats.push(pat);
+        }
+    }
+    // ---- exceptions: (lower-case word, break gaps)
+    let nexc = match r.below(100) {
+        0..=34 => 0,
+        35..=69 => 1,
+        70..=89 => 2,
+        _ => 3,
+    };
+    let mut excs: Vec<(Vec<char>, Vec<bool>)> = vec![];
+    let mut tries = 0;
+    while excs.len() < nexc && tries < 30 {
+        tries += 1;
+        let mut w: Vec<char> = if !pats.is_empty() && r.chance(55, 100) {
+            let mut v = vec![];
+            let k = r.range(1, 3);
+            for _ in 0..k {
+                if r.chance(1, 3) {
+                    let n = r.range(1, 2) as usize;
+                    v.extend(rand_letters(r, p, n));
+                }
+                v.extend(r.pick(&pats).letters.iter());
+            }
+            if r.chance(1, 3) {
+                let n = r.range(1, 2) as usize;
+                v.extend(rand_letters(r, p, n));
+            }
+            v
+        } else if !pats.is_empty() && r.chance(40, 100) {
+            r.pick(&pats).letters.clone()
+        } else {
+            let n = r.range(1, 8) as usize;
+            rand_letters(r, p, n)
+        };
+        w.truncate(40);
+        if excs.iter().any(|e| e.0 == w) {
+            continue;
+        }
+        let n = w.len();
+        let mut b: Vec<bool> = (0..=n).map(|g| g > 0 && g < n && r.chance(35, 100)).collect();
+        if r.chance(3, 100) {
+            b[0] = true;
+        }
+        if r.chance(3, 100) {
+            b[n] = true;
+        }
+        // sometimes also load the fully anchored pattern of this very word
+        if r.chance(15, 100) {
+            let pat = Pat { digits: rand_digits(r, n), letters: w.clone(), at_start: true, at_end: true };
+            if keys.insert(pat.key()) {
+                pats.push(pat);
+            }
+        }
+        excs.push((w, b));
+    }
+    let exc_text = |e: &(Vec<char>, Vec<bool>)| -> String {
+        let mut s = String::new();
+        for g in 0..=e.0.len() {
+            if e.1[g] {
+                s.push('-');
+            }
+            if g < e.0.len() {
+                s.push(e.0[g]);
+            }
+        }
+        s
+    };
+    // ---- API calls
+    #[derive(Clone)]
+    enum Item {
+        P(String),
+        E(String),
+    }
+    let mut items: Vec<Item> = pats.iter().map(|x| Item::P(x.text())).collect();
+    items.extend(excs.iter().map(|e| Item::E(exc_text(e))));
+    if r.chance(30, 100) {
+        // arbitrary interleaving of \patterns and \hyphenation
+        for i in (1..items.len()).rev() {
+            let j = r.below(i as u64 + 1) as usize;
+            items.swap(i, j);
+        }
+    }
+    let mut calls: Vec<Call> = vec![];
+    let mut i = 0;
+    while i < items.len() {
+        let is_p = matches!(items[i], Item::P(_));
+        let mut j = i + 1;
+        while j < items.len() && matches!(items[j], Item::P(_)) == is_p && r.chance(if is_p { 85 } else { 45 }, 100) {
+            j += 1;
+        }
+        let texts: Vec<String> = items[i..j]
+            .iter()
+            .map(|x| match x {
+                Item::P(s) | Item::E(s) => s.clone(),
+            })
+            .collect();
+        if is_p {
+            let sep = *r.pick(&[" ", "\n", "  ", " \n", "\t"]);
+            let mut t = texts.join(sep);
+            if r.chance(1, 5) {
+                t = format!(" {t}\n");
+            }
+            calls.push(Call { k: "p", t });
+        } else if texts.len() == 1 && r.chance(3, 4) {
+            calls.push(Call { k: "e", t: texts[0].clone() });
+        } else {
+            // the documented format of insert_exceptions is "separated by whitespace"
+            let sep = *r.pick(&["\n", "\n", "\n", " ", " ", "\n\n", " \n ", "\t"]);
+            let mut t = texts.join(sep);
+            if r.chance(1, 5) {
+                t = format!("  {t} \n");
+            }
+            calls.push(Call { k: "E", t });
+        }
+        i = j;
+    }
+    // ---- words
+    let mut words: Vec<String> = vec![];
+    let mut seen: HashSet<String> = HashSet::new();
+    let mut push = |w: String, words: &mut Vec<String>| {
+        if !w.is_empty() && w.chars().count() <= 40 && seen.insert(w.clone()) {
+            words.push(w);
+        }
+    };
+    for e in &excs {
+        if r.chance(9, 10) {
+            let st = r.below(4);
+            push(mixed_case(r, p, &e.0, st), &mut words);
+        }
+        if r.chance(1, 2) {
+            // near misses of an exception word
+            let mut v = e.0.clone();
+            match r.below(3) {
+                0 => v.push(*r.pick(&p.lower)),
+                1 => v.insert(0, *r.pick(&p.lower)),
+                _ => {
+                    v.pop();
+                }
+            }
+            v.truncate(40);
+            let st = r.below(4);
+            push(mixed_case(r, p, &v, st), &mut words);
+        }
+    }
+    let mut guard = 0;
+    while words.len() < nwords && guard < 200 {
+        guard += 1;
+        let mut v: Vec<char> = vec![];
+        let kind = if pats.is_empty() { 9 } else { r.below(10) };
+        match kind {
+            0 => v = r.pick(&pats).letters.clone(),
+            1 => {
+                v.push(*r.pick(&p.lower));
+                v.extend(r.pick(&pats).letters.iter());
+                if r.chance(1, 2) {
+                    v.push(*r.pick(&p.lower));
+                }
+            }
+            2 => {
+                v.extend(r.pick(&pats).letters.iter());
+                v.push(*r.pick(&p.lower));
+            }
+            3..=7 => {
+                let k = r.range(1, 4);
+                for _ in 0..k {
+                    if r.chance(1, 3) {
+                        let n = r.range(1, 2) as usize;
+                        v.extend(rand_letters(r, p, n));
+                    }
+                    v.extend(r.pick(&pats).letters.iter());
+                }
+                if r.chance(1, 3) {
+                    let n = r.range(1, 2) as usize;
+                    v.extend(rand_letters(r, p, n));
+                }
+            }
+            8 => {
+                let n = r.range(20, 40) as usize;
+                v = rand_letters(r, p, n);
+            }
+            _ => {
+                let n = r.range(1, 9) as usize;
+                v = rand_letters(r, p, n);
+            }
+        }
+        v.truncate(40);
+        let st = match r.below(10) {
+            0..=3 => 0,
+            4..=5 => 1,
+            6 => 2,
+            _ => 3,
+        };
+        let mut w = mixed_case(r, p, &v, st);
+        if r.chance(3, 100) {
+            // outside the property (a non-letter): the specification skips and counts these
+            let cs: Vec<char> = w.chars().collect();
+            let at = r.below(cs.len() as u64 + 1) as usize;
+            let mut x: Vec<char> = cs[..at].to_vec();
+            x.push(*r.pick(&p.nonletters));
+            x.extend_from_slice(&cs[at..]);
+            x.truncate(40);
+            w = x.into_iter().collect();
+        }
+        push(w, &mut words);
+    }
+    (calls, words)
+}
+
+fn gen_random(args: &Args) -> i32 {
+    quiet_panics();
+    let seed: u64 = args.num("seed", 1);
+    let sets: usize = args.num("sets", 100);
+    let nwords: usize = args.num("words", 10);
+    let mut out = Out::new(args.str("out"));
+    let mut r = Rng::new(seed ^ 0xC13);
+    let profiles = [profile_ascii(), profile_table()];
+    for i in 0..sets {
+        let p = &profiles[if i % 3 == 2 { 1 } else { 0 }];
+        let (calls, words) = gen_set(&mut r, p, nwords);
+        out.line(&event(&calls, &p.lc, &words, p.name));
+    }
+    0
+}
+
+// ------------------------------------------------------------------------------------------
+// long patterns: 14..40 letters with 1..3 digits, so that the zero runs of the packed op stream
+// fall around the chunk boundaries (15/16/17, 31/32/33), queried with words that embed them.
+// ------------------------------------------------------------------------------------------
+
+fn gen_long(args: &Args) -> i32 {
+    quiet_panics();
+    let seed: u64 = args.num("seed", 1);
+    let sets: usize = args.num("sets", 100);
+    let mut out = Out::new(args.str("out"));
+    let mut r = Rng::new(seed ^ 0x10_46);
+    let profiles = [profile_ascii(), profile_table()];
+    for i in 0..sets {
+        let p = &profiles[if i % 4 == 3 { 1 } else { 0 }];
+        let npat = r.range(1, 3) as usize;
+        let mut pats: Vec<Pat> = vec![];
+        let mut keys: HashSet<(bool, Vec<char>, bool)> = HashSet::new();
+        while pats.len() < npat {
+            let n = match r.below(4) {
+                0 => r.range(14, 19) as usize,
+                1 => r.range(30, 35) as usize,
+                _ => r.range(14, 40) as usize,
+            };
+            let letters = rand_letters(&mut r, p, n);
+            let mut digits: Vec<Option<u8>> = vec![None; n + 1];
+            let nd = r.range(1, 3);
+            for _ in 0..nd {
+                // favour gaps whose distance from the previous digit / the start is 14..18 or 30..34
+                let g = match r.below(3) {
+                    0 => r.range(14, 18).min(n as i64) as usize,
+                    1 => r.range(30, 34).min(n as i64) as usize,
+                    _ => r.below(n as u64 + 1) as usize,
+                };
+                digits[g] = Some(rand_digit(&mut r).max(1));
+            }
+            let pat = Pat { letters, digits, at_start: r.chance(1, 5), at_end: r.chance(1, 5) };
+            if keys.insert(pat.key()) {
+                pats.push(pat);
+            }
+        }
+        if r.chance(1, 2) {
+            // a short companion pattern competing at some positions
+            let n = r.range(1, 3) as usize;
+            let letters = rand_letters(&mut r, p, n);
+            let pat = Pat { digits: rand_digits(&mut r, n), letters, at_start: false, at_end: false };
+            if keys.insert(pat.key()) {
+                pats.push(pat);
+            }
+        }
+        let calls: Vec<Call> = if r.chance(1, 2) {
+            vec![Call { k: "p", t: pats.iter().map(|x| x.text()).collect::<Vec<_>>().join(" ") }]
+        } else {
+            pats.iter().map(|x| Call { k: "p", t: x.text() }).collect()
+        };
+        let mut words: Vec<String> = vec![];
+        let mut seen: HashSet<String> = HashSet::new();
+        for pat in pats.iter().filter(|x| x.letters.len() >= 14) {
+            for variant in 0..4 {
+                let n = pat.letters.len();
+                let room = 40 - n;
+                let (pre, post) = match variant {
+                    0 => (0, 0),
+                    1 => (r.below(room as u64 + 1) as usize, 0),
+                    2 => (0, r.below(room as u64 + 1) as usize),
+                    _ => {
+                        let a = r.below(room as u64 + 1) as usize;
+                        (a, r.below((room - a) as u64 + 1) as usize)
+                    }
+                };
+                // an anchored pattern is mostly given the chance to match
+                let pre = if pat.at_start && r.chance(4, 5) { 0 } else { pre };
+                let post = if pat.at_end && r.chance(4, 5) { 0 } else { post };
+                let mut v = rand_letters(&mut r, p, pre);
+                v.extend(pat.letters.iter());
+                v.extend(rand_letters(&mut r, p, post));
+                let st = match r.below(4) {
+                    0 | 1 => 0,
+                    2 => 1,
+                    _ => 3,
+                };
+                let w = mixed_case(&mut r, p, &v, st);
+                if seen.insert(w.clone()) {
+                    words.push(w);
+                }
+            }
+        }
+        out.line(&event(&calls, &p.lc, &words, p.name));
+    }
+    0
+}
+
+// ------------------------------------------------------------------------------------------
+// exhaustive small domain: every pattern over {a,b} with up to `maxlen` letters, every gap empty
+// or one of `digits`, all four anchorings -- alone (pairs=0) or together with `pairs` other
+// patterns of the same space chosen by the seed -- queried with every word over {a,b} up to
+// `wlen` letters (case chosen by the seed).
+// ------------------------------------------------------------------------------------------
+
+fn gen_small(args: &Args) -> i32 {
+    quiet_panics();
+    let seed: u64 = args.num("seed", 1);
+    let maxlen: usize = args.num("maxlen", 2);
+    let wlen: usize = args.num("wlen", 5);
+    let pairs: usize = args.num("pairs", 0);
+    let digits: Vec<u8> = args.str("digits").unwrap_or("12").bytes().map(|b| b - b'0').collect();
+    let mut out = Out::new(args.str("out"));
+    let mut r = Rng::new(seed ^ 0x5A11);
+    let p = profile_ascii();
+    let letters = ['a', 'b'];
+    // all patterns
+    let mut all: Vec<Pat> = vec![];
+    for n in 1..=maxlen {
+        for li in 0..(1usize << n) {
+            let ls: Vec<char> = (0..n).map(|i| letters[(li >> i) & 1]).collect();
+            let choices = digits.len() + 1;
+            let total = choices.pow(n as u32 + 1);
+            for di in 0..total {
+                let mut x = di;
+                let ds: Vec<Option<u8>> = (0..=n)
+                    .map(|_| {
+                        let c = x % choices;
+                        x /= choices;
+                        if c == 0 {
+                            None
+                        } else {
+                            Some(digits[c - 1])
+                        }
+                    })
+                    .collect();
+                for anch in 0..4 {
+                    all.push(Pat { letters: ls.clone(), digits: ds.clone(), at_start: anch & 1 != 0, at_end: anch & 2 != 0 });
+                }
+            }
+        }
+    }
+    // all words
+    let mut words_lower: Vec<Vec<char>> = vec![];
+    for n in 1..=wlen {
+        for wi in 0..(1usize << n) {
+            words_lower.push((0..n).map(|i| letters[(wi >> i) & 1]).collect());
+        }
+    }
+    let reps = pairs.max(1);
+    for first in &all {
+        for _ in 0..reps {
+            let mut set = vec![first.clone()];
+            if pairs > 0 {
+                let mut guard = 0;
+                while set.len() < 2 && guard < 20 {
+                    guard += 1;
+                    let q = r.pick(&all).clone();
+                    if q.key() != first.key() {
+                        set.push(q);
+                    }
+                }
+            }
+            let t: Vec<String> = set.iter().map(|x| x.text()).collect();
+            let calls = vec![Call { k: "p", t: t.join(" ") }];
+            let words: Vec<String> = words_lower
+                .iter()
+                .map(|w| {
+                    let st = if r.chance(2, 3) { 0 } else { 3 };
+                    mixed_case(&mut r, &p, w, st)
+                })
+                .collect();
+            out.line(&event(&calls, &p.lc, &words, p.name));
+        }
+    }
+    0
+}
+
+// ------------------------------------------------------------------------------------------
+// plain TeX's own patterns and exceptions (Hyphenator::plain_tex_en_us) on a list of words
+// ------------------------------------------------------------------------------------------
+
+fn gen_plain(args: &Args) -> i32 {
+    quiet_panics();
+    let words_file = args.req("words");
+    let chunk: usize = args.num("chunk", 25);
+    let mut out = Out::new(args.str("out"));
+    let text = std::fs::read_to_string(words_file).expect("read words file");
+    let words: Vec<String> = text.split_whitespace().map(|s| s.to_string()).collect();
+    let lc = AsciiLowerCaser::default();
+    let h = match catch(Hyphenator::plain_tex_en_us) {
+        Ok(h) => h,
+        Err((site, msg)) => {
+            out.line(&json!({"ops": [{"k": "plain", "t": []}], "lc": [], "profile": "ascii", "words": [],
+                             "panic": format!("{site}: {msg}")}));
+            return 0;
+        }
+    };
+    for ws in words.chunks(chunk) {
+        let texts: Vec<&str> = ws.iter().map(|w| w.as_str()).collect();
+        let lcp = lc_pairs(&lc, &texts);
+        let res: Vec<Value> = ws.iter().map(|w| query(&h, &lc, w)).collect();
+        out.line(&json!({"ops": [{"k": "plain", "t": []}], "lc": lcp, "profile": "ascii", "words": res}));
+    }
+    0
+}
+
+// ------------------------------------------------------------------------------------------
+// replay of one recorded event: re-run the calls and the word on the current code
+// ------------------------------------------------------------------------------------------
+
+fn replay(args: &Args) -> i32 {
+    quiet_panics();
+    let path = args.req("file");
+    let v: Value = serde_json::from_str(&std::fs::read_to_string(path).expect("read replay")).expect("json");
+    let e = &v["event"];
+    let to_s = |a: &Value| -> String {
+        a.as_array().unwrap().iter().map(|c| char::from_u32(c.as_u64().unwrap() as u32).unwrap()).collect()
+    };
+    let table: HashMap<char, char> = e["lc"]
+        .as_array()
+        .unwrap()
+        .iter()
+        .filter(|p| p[1].as_u64().unwrap() != 0)
+        .map(|p| {
+            (char::from_u32(p[0].as_u64().unwrap() as u32).unwrap(), char::from_u32(p[1].as_u64().unwrap() as u32).unwrap())
+        })
+        .collect();
+    let lc = Lc::Table(table);
+    let plain = e["ops"][0]["k"] == "plain";
+    let h = if plain {
+        Hyphenator::plain_tex_en_us()
+    } else {
+        let calls: Vec<Call> = e["ops"]
+            .as_array()
+            .unwrap()
+            .iter()
+            .map(|o| Call {
+                k: match o["k"].as_str().unwrap() {
+                    "p" => "p",
+                    "e" => "e",
+                    _ => "E",
+                },
+                t: to_s(&o["t"]),
+            })
+            .collect();
+        for c in &calls {
+            println!("call {} {:?}", match c.k { "p" => "load_patterns", "e" => "insert_exception", _ => "insert_exceptions" }, c.t);
+        }
+        build(&calls)
+    };
+    let wi = v["verdict"]["wi"].as_u64().unwrap_or(1).max(1) as usize - 1;
+    let w = to_s(&e["words"][wi]["w"]);
+    let got = query(&h, &lc, &w);
+    println!("calculate_indices({:?}) now returns {}", w, got.get("got").unwrap_or(&got["panic"]));
+    println!("recorded: {}   specification (TeX): {}", e["words"][wi].get("got").unwrap_or(&Value::Null), v["verdict"]["want"]);
+    0
 }
